@@ -392,15 +392,37 @@ where
 
 fn family<T: Family + ?Sized>(ctx: &mut Ctx, arena: &Arena, max: usize) {
     let id = u32::from(T::ID);
-    for size in 8..=max {
+    // size words below the tag header's own 8 bytes: whatever view comes back has to have the tag's padded size too
+    // (0 for a size word of 0, 8 for 1..=7) - or the cast is refused
+    for size in 0..8usize {
+        let mut img = vec![0u8; 8];
+        wr32(&mut img, 0, id);
+        wr32(&mut img, 4, size as u32);
+        let describe = || J::obj().set("seam", "cast").set("type", T::NAME).set("tag_size", size).set("tag", J::hex(&img));
+        ctx.leaf(describe, |ctx| {
+            ctx.state_direct();
+            ctx.nontrivial();
+            arena.fill(arena::FILL_A);
+            let p = arena.place_at((arena.len() - 8) & !(T::ALIGN - 1), &img);
+            let slice: &[u8] = unsafe { std::slice::from_raw_parts(p, 8) };
+            let Out::Val(Ok(g)) = ctx.call("ref_from_slice", || Generic::ref_from_slice(slice)) else {
+                ctx.class("cast:refused-by-ref_from_slice");
+                return;
+            };
+            let r = ctx.call("cast", || g.cast::<T>().view(p));
+            judge(ctx, T::NAME, "cast", size, &img, r);
+        });
+    }
+    // payloads: marker bytes, and end-tag images throughout (every 8-byte word reads (type 0, size 8))
+    for (size, look) in (8..=max).map(|s| (s, false)).chain((8..=max).map(|s| (s, true))) {
         let mut img = vec![0u8; round8(size)];
         for i in 0..img.len() {
-            img[i] = marker(i, 71);
+            img[i] = if look { [0u8, 0, 0, 0, 8, 0, 0, 0][i % 8] } else { marker(i, 71) };
         }
         wr32(&mut img, 0, id);
         wr32(&mut img, 4, size as u32);
         // tag-level: ref_from_slice + cast, flush against the guard page
-        let describe = || J::obj().set("seam", "cast").set("type", T::NAME).set("tag_size", size).set("tag", J::hex(&img));
+        let describe = || J::obj().set("seam", "cast").set("type", T::NAME).set("tag_size", size).set("end_tag_images_as_payload", look).set("tag", J::hex(&img));
         ctx.leaf(describe, |ctx| {
             ctx.state_direct();
             ctx.nontrivial();
@@ -418,7 +440,7 @@ fn family<T: Family + ?Sized>(ctx: &mut Ctx, arena: &Arena, max: usize) {
         for slack in [8usize, 16, 24] {
             let mut long = img.clone();
             long.extend((0..slack).map(|i| marker(i, 77)));
-            let describe = || J::obj().set("seam", "cast-from-longer-slice").set("type", T::NAME).set("tag_size", size).set("slack", slack).set("slice", J::hex(&long));
+            let describe = || J::obj().set("seam", "cast-from-longer-slice").set("type", T::NAME).set("tag_size", size).set("end_tag_images_as_payload", look).set("slack", slack).set("slice", J::hex(&long));
             ctx.leaf(describe, |ctx| {
                 ctx.state_direct();
                 ctx.nontrivial();
@@ -435,7 +457,7 @@ fn family<T: Family + ?Sized>(ctx: &mut Ctx, arena: &Arena, max: usize) {
         }
         // region-level: BootInformation::get_tag::<T>()
         let region = bi::region(&[bi::sample(bi::MEMINFO, 1, 0), img[..size].to_vec(), bi::end_tag()], &|_, k| img.get(size + k).copied().unwrap_or(0));
-        let describe = || J::obj().set("seam", "get_tag").set("type", T::NAME).set("tag_size", size).set("region", J::hex(&region));
+        let describe = || J::obj().set("seam", "get_tag").set("type", T::NAME).set("tag_size", size).set("end_tag_images_as_payload", look).set("region", J::hex(&region));
         ctx.leaf(describe, |ctx| {
             ctx.state_direct();
             ctx.nontrivial();
@@ -509,7 +531,7 @@ impl Family for Huge4G {
 fn run(ctx: &mut Ctx) {
     let arena = Arena::new(2);
     let max = if ctx.quick() { 96 } else { 512 };
-    ctx.bound("family", format!("user-defined tag types following the MaybeDynSized contract: sized with 0..=6 extra u32 words; DSTs with element sizes 1,2,3,4,8,24 and fixed parts 8,12,16,20,24 (where the element alignment allows): 33 types with alignment 8 plus two 16-aligned ones (a u128 field; tags placed at 16-aligned addresses) x every tag size 8..={}; via cast (tag flush against a guard page, fills A/B) and via BootInformation::get_tag", max));
+    ctx.bound("family", format!("user-defined tag types following the MaybeDynSized contract: sized with 0..=6 extra u32 words; DSTs with element sizes 1,2,3,4,8,24 and fixed parts 8,12,16,20,24 (where the element alignment allows): 33 types with alignment 8 plus two 16-aligned ones (a u128 field; tags placed at 16-aligned addresses) x every tag size 0..={} (payload: marker bytes, and end-tag images in every 8-byte word); via cast (tag flush against a guard page, fills A/B) and via BootInformation::get_tag", max));
     macro_rules! fam { ($($t:ty),*) => { $( family::<$t>(ctx, &arena, max); )* } }
     fam!(Sized0, Sized1, Sized2, Sized3, Sized4, Sized5, Sized6);
     fam!(D8E1, D12E1, D16E1, D20E1, D24E1, D8E2, D12E2, D16E2, D20E2, D24E2, D8E3, D12E3, D16E3, D20E3, D24E3);
